@@ -52,6 +52,14 @@ def unhx(s):
     return b"" if s == "-" else bytes.fromhex(s)
 
 
+def pton(fam, text):
+    """inet_pton that answers None instead of raising (oracle side)"""
+    try:
+        return socket.inet_pton(fam, text if isinstance(text, str) else text.decode("ascii"))
+    except Exception:
+        return None
+
+
 def exc_name(e):
     import sshuttle.helpers as helpers
     if isinstance(e, helpers.Fatal):
@@ -551,7 +559,7 @@ def correspondence(ctx):
     # oracle on the implementation side alone: parse(format a) = a, no comma
     for a in A6:
         for t in (str(ipaddress.IPv6Address(a)), socket.inet_ntop(socket.AF_INET6, a)):
-            if socket.inet_pton(socket.AF_INET6, t) != a or "," in t:
+            if pton(socket.AF_INET6, t) != a or "," in t:
                 ctx.violation("IPv6 text does not round-trip", {"addr": hx(a), "text": t})
     # int()
     ints = ["0", "1", "8080", "65535", "65536", "-1", "+7", " 12", "12 ", "12\n", "\t12\r\n", "1 2", "", " ", "-", "+", "--1", "0x10",
@@ -606,7 +614,7 @@ def correspondence(ctx):
             ip, port = world.methods.original_dst(sock)
             r = "OK %s %d" % (hx(ip), port)
             # property on the implementation alone
-            if socket.inet_pton(socket.AF_INET if fam == AF_INET else socket.AF_INET6, ip) != a or port != p or "," in ip:
+            if pton(socket.AF_INET if fam == AF_INET else socket.AF_INET6, ip) != a or port != p or "," in ip:
                 ctx.violation("original_dst does not return the destination in the kernel's sockaddr",
                               {"family": fam, "addr": hx(a), "port": p, "layout": layout, "got": [ip, port]})
         except Exception as e:
@@ -629,7 +637,7 @@ def correspondence(ctx):
             elif er.startswith("OK "):
                 f2, ip2, p2 = world.connects[0]
                 okfam = (f2 == socket.AF_INET) == (fam == AF_INET)
-                if not okfam or socket.inet_pton(f2, ip2) != a or p2 != p:
+                if not okfam or pton(f2, ip2) != a or p2 != p:
                     ctx.violation("connect_dst received a different destination than the kernel reported",
                                   {"family": fam, "addr": hx(a), "port": p, "payload": hx(payload), "connect_dst": [int(f2), ip2, p2]})
             else:
@@ -724,7 +732,7 @@ def correspondence(ctx):
                 try:
                     src, dst, data = world.tproxy.recv_udp(lst, 4096)
                     r = "OK NONE" if dst is None else "OK %s %d" % (hx(dst[0]), dst[1])
-                    if dst is None or socket.inet_pton(socket.AF_INET if fam == AF_INET else socket.AF_INET6, dst[0]) != a \
+                    if dst is None or pton(socket.AF_INET if fam == AF_INET else socket.AF_INET6, dst[0]) != a \
                             or dst[1] != p or "," in dst[0] or data != payload:
                         ctx.violation("tproxy.recv_udp does not return the destination in the control message (%s host)" % endian,
                                       {"endian": endian, "family": fam, "addr": hx(a), "port": p, "cmsg": hx(raw), "got": repr(dst)})
@@ -748,7 +756,7 @@ def correspondence(ctx):
                 if ur.startswith("OK "):
                     (dst2, pl2), = world.udp_sends
                     try:
-                        back = socket.inet_pton(socket.AF_INET if fam == AF_INET else socket.AF_INET6, dst2[0].decode("ascii"))
+                        back = pton(socket.AF_INET if fam == AF_INET else socket.AF_INET6, dst2[0].decode("ascii"))
                     except Exception:
                         back = None
                     if back != a or dst2[1] != p or pl2 != payload:
@@ -799,7 +807,7 @@ def correspondence(ctx):
         er = "OK NONE" if payload is None else run_new_channel(world, payload)
         if payload is not None and er.startswith("OK "):
             f2, ip2, p2 = world.connects[0]
-            if socket.inet_pton(f2, ip2) != a or p2 != p or ((f2 == socket.AF_INET) != (fam == AF_INET)):
+            if pton(f2, ip2) != a or p2 != p or ((f2 == socket.AF_INET) != (fam == AF_INET)):
                 ctx.violation("tproxy: connect_dst received a different destination than getsockname reported",
                               {"family": fam, "addr": hx(a), "port": p, "payload": hx(payload)})
         lines.append("E2ETEXT %d %d %s %d %d 2" % (1 if isl else 0, fam, hx(text), p, p)); impls.append(er); descs.append(("tproxy-tcp", a, p, isl))
@@ -890,7 +898,7 @@ def correspondence(ctx):
         if fw.pfile.end not in (None, "EOF"):
             r = "FATAL" if fw.pfile.end.startswith(("NOTCMD", "FATAL")) else "CRASH " + fw.pfile.end.split(":", 1)[1]
         if kind not in (3, 5):
-            good = r.startswith("OK ") and socket.inet_pton(sfam, unhx(r.split(" ")[1]).decode()) == rd and int(r.split(" ")[2]) == rp
+            good = r.startswith("OK ") and pton(sfam, unhx(r.split(" ")[1]).decode()) == rd and int(r.split(" ")[2]) == rp
             q = world.nat_queries
             goodq = len(q) == 1 and q[0] == (fam, 6, peer_a, peer[1], proxy_a, proxy[1])
             if not (good and goodq):
@@ -1106,7 +1114,7 @@ def kernel_validation(ctx, world):
             ctx.extra["kernel_so_original_dst6_len"] = len(raw)
         if model != (t["raw"] if fam == AF_INET else t["raw"][:56]) or (fam == AF_INET6 and len(raw) not in (28, 64)):
             ctx.disagree("kernel sockaddr layout (SO_ORIGINAL_DST)", t, t["raw"], model)
-        if socket.inet_pton(t["fam"], t["got"][0]) != a or t["got"][1] != t["port"]:
+        if pton(t["fam"], t["got"][0]) != a or t["got"][1] != t["port"]:
             ctx.violation("original_dst on a real redirected connection does not return the dialled destination", t)
     for u in res["udp"]:
         fam = AF_INET if u["fam"] == socket.AF_INET else AF_INET6
@@ -1127,7 +1135,7 @@ def kernel_validation(ctx, world):
             ctx.extra["kernel_cmsg6_len"] = len(raw)
         if model != hx(raw):
             ctx.disagree("kernel control message layout (ORIGDSTADDR)", u, hx(raw), model)
-        if u["got"] is None or socket.inet_pton(u["fam"], u["got"][0]) != a or u["got"][1] != u["port"]:
+        if u["got"] is None or pton(u["fam"], u["got"][0]) != a or u["got"][1] != u["port"]:
             ctx.violation("tproxy.recv_udp on a real TPROXY datagram does not return the dialled destination", u)
     if not res["tcp"]:
         ctx.notes.append("kernel validation: no TCP probe succeeded: %r" % res["errors"][:4])
@@ -1149,7 +1157,7 @@ def replay(ctx, rp):
             print("original_dst raised", repr(e))
             return True
         print("original_dst ->", ip, port)
-        return socket.inet_pton(socket.AF_INET if fam == AF_INET else socket.AF_INET6, ip) != a or port != r["port"]
+        return pton(socket.AF_INET if fam == AF_INET else socket.AF_INET6, ip) != a or port != r["port"]
     if "cmsg" in r:
         fam = r["family"]
         a = unhx(r["addr"])
@@ -1162,7 +1170,7 @@ def replay(ctx, rp):
                 print("recv_udp raised", repr(e))
                 return True
             print("recv_udp ->", dst)
-            return dst is None or socket.inet_pton(socket.AF_INET if fam == AF_INET else socket.AF_INET6, dst[0]) != a or dst[1] != r["port"]
+            return dst is None or pton(socket.AF_INET if fam == AF_INET else socket.AF_INET6, dst[0]) != a or dst[1] != r["port"]
         finally:
             if old:
                 world.tproxy.struct, world.tproxy.socket = old
